@@ -26,6 +26,11 @@ FLAVOURS = {
     "msan": ("clang", ["-O1", "-g", "-fno-omit-frame-pointer", "-fsanitize=memory",
                        "-fsanitize-memory-track-origins"]),
     "plain": ("gcc", ["-O2", "-g"]),
+    # plain char is unsigned on ARM / PowerPC / Xtensa ports: the same code with that ABI choice
+    "asan-uchar": ("gcc", ["-O1", "-g", "-fno-omit-frame-pointer", "-fsanitize=address,undefined", "-funsigned-char"]),
+    # size-optimised release builds (OpenWrt, ESP-IDF): __OPTIMIZE_SIZE__ paths, other inlining decisions
+    "plain-os": ("gcc", ["-Os", "-g"]),
+    "plain-clang-os": ("clang", ["-Os", "-g"]),
     "cov": ("gcc", ["-O0", "-g", "--coverage"]),
 }
 
